@@ -143,7 +143,11 @@ class Universe:
             lines.append(s.body.rstrip("\n"))
         if not lines:
             lines = ["    pass"]
-        return out + "\n".join(lines) + "\n"
+        src = out + "\n".join(lines) + "\n"
+        if s.local:
+            # defined inside a function: __qualname__ differs from __name__; the name is bound at module level afterwards
+            src = f"def _make_{s.name}():\n" + "".join(("    " + ln if ln else ln) + "\n" for ln in src.splitlines()) + f"    return {s.name}\n\n\n{s.name} = _make_{s.name}()\n"
+        return src
 
     # ---- knowledge derived from the specs only ----
     def mro(self, name: str) -> list[str]:
@@ -367,6 +371,11 @@ def core_specs(P: str = "U", variant: int = 0) -> list[CS]:
                 FS("extras", "child", f"tuple[{E}, ...]", "tuple", (E,), compare=False, default="()"),
             ),
         ),
+        # same property names in the same order, another compare flag
+        CS(f"{P}CmpA", (E,), F(FS("v", "prop", "int", "int", default="0"), FS("note", "prop", "str", "str", default='""'))),
+        CS(f"{P}CmpB", (E,), F(FS("v", "prop", "int", "int", default="0"), FS("note", "prop", "str", "str", compare=False, default='""'))),
+        # a class that is not defined at module top level
+        CS(f"{P}Local", (E,), F(FS("v", "prop", "int", "int", default="0"), FS("kid", "child", f"{E} | None", "opt", (E,), default="None")), local=True),
         # a non-comparable property holding an opaque object (generators include this class only on request)
         CS(f"{P}Handle", (E,), F(FS("name", "prop", "str", "str", default='""'), FS("symbol", "prop", "Any", "symbol", compare=False, default="None"), FS("kid", "child", f"{E} | None", "opt", (E,), default="None"))),
         # a bytes-valued property (valid and invalid UTF-8)
